@@ -529,6 +529,30 @@ impl<'de, R: Read<'de>> Parser<R> {
         }
     }
 
+    // R7RS 7.1.1 peculiar identifiers that the one-byte lookahead cannot
+    // classify: <sign> "." <dot subsequent> <subsequent>*, such as `+.a` or
+    // `-..`, and <sign> followed by a non-ASCII alphabetic character, such as
+    // `-λ`. A digit after the dot would start a decimal without integer part,
+    // which is not a supported literal.
+    fn parse_peculiar_symbol(&mut self, sign: &str) -> Result<Token> {
+        let name = self.parse_symbol_suffix(sign)?;
+        let mut rest = name[1..].chars();
+        let ok = match rest.next() {
+            Some('.') => match rest.next() {
+                Some(c) if c.is_ascii() => c == '.' || is_sign_subsequent(c as u8),
+                Some(c) => c.is_alphabetic(),
+                None => false,
+            },
+            Some(c) => c.is_alphabetic(),
+            None => false,
+        };
+        if ok {
+            Ok(self.symbol_token(name))
+        } else {
+            Err(self.peek_error(ErrorCode::InvalidNumber))
+        }
+    }
+
     fn parse_token(&mut self, peek: u8) -> Result<Token> {
         let token = match peek {
             b'#' => {
@@ -570,6 +594,8 @@ impl<'de, R: Read<'de>> Parser<R> {
                 if next == 0 || is_delimiter(next) || is_sign_subsequent(next) {
                     let name = self.parse_symbol_suffix("-")?;
                     self.symbol_token(name)
+                } else if next == b'.' || next > 127 {
+                    self.parse_peculiar_symbol("-")?
                 } else {
                     let number = self.parse_num_literal(10, false)?;
                     self.expect_number_end()?;
@@ -582,6 +608,8 @@ impl<'de, R: Read<'de>> Parser<R> {
                 if next == 0 || is_delimiter(next) || is_sign_subsequent(next) {
                     let name = self.parse_symbol_suffix("+")?;
                     self.symbol_token(name)
+                } else if next == b'.' || next > 127 {
+                    self.parse_peculiar_symbol("+")?
                 } else {
                     let number = self.parse_num_literal(10, true)?;
                     self.expect_number_end()?;
